@@ -360,4 +360,35 @@ MUTANTS = [
     dict(id="c08-insert-under-rewritten-name", prop="C08", file="src/client.rs", expect="C08-R4",
          what="client map keyed by the rewritten name",
          old='''            .insert(client_given_name, (new_parse.clone(), hash));''', new='''            .insert(new_parse.name.clone(), (new_parse.clone(), hash));'''),
+    # ------------------------------------------------------------------ C12
+    dict(id="c12-raw-value", prop="C12", file="src/server.rs", expect="C12-R2",
+         what="value interpolated without escaping again",
+         old='''            let value = value.replace('\\\\', "\\\\\\\\").replace('\\'', "''");
+''', new=''''''),
+    dict(id="c12-sync-after-first-send", prop="C12", file="src/client.rs", expect="C12-R1",
+         what="parameters synchronised only when the client has non-default parameters (skipped otherwise)",
+         old='''            server.sync_parameters(&self.server_parameters).await?;''',
+         new='''            if self.prepared_statements_enabled {
+                server.sync_parameters(&self.server_parameters).await?;
+            }'''),
+    dict(id="c12-client-map-not-updated", prop="C12", file="src/client.rs", expect="C12-R3",
+         what="client traffic no longer passes the client's parameter map to recv",
+         old='''            server.recv(Some(&mut self.server_parameters)),''', new='''            server.recv(None),'''),
+    dict(id="c12-untracked-timezone", prop="C12", file="src/server.rs", expect="C12-R5",
+         what="TimeZone dropped from the tracked set",
+         old='''    set.insert("TimeZone".to_string());
+''', new=''''''),
+    dict(id="c12-tell-before-merge", prop="C12", file="src/client.rs", expect="C12-R4",
+         what="startup parameters merged after the client was told the values",
+         old='''        server_parameters.set_from_hashmap(&parameters, false);
+
+        debug!("Password authentication successful");
+
+        auth_ok(&mut write).await?;
+        write_all(&mut write, (&server_parameters).into()).await?;''',
+         new='''        debug!("Password authentication successful");
+
+        auth_ok(&mut write).await?;
+        write_all(&mut write, (&server_parameters).into()).await?;
+        server_parameters.set_from_hashmap(&parameters, false);'''),
 ]
